@@ -19,7 +19,7 @@ CLAIMS = {
             "that flag variants of a pyc parse to the same tree is established by the runs (model and implementation agree on every variant).", "DESIGN.md section 5-C01"),
     "C02": ("PARTIAL. Coq theorems about the model of the marshal reader and writer (type-code dispatch, code-object field order with version guards, flag bit, depth limit, skip bound "
             "regenerated from pyc.rs): the header is copied verbatim; the output is a function of the header and of the object tree the reader builds (not of flag / back-reference placement); "
-            "files of interpreters without reference flags (Python < 3.4) are never rewritten. The round trip 'the rewritten payload decodes, under CPython's rules for that version, to the same tree' "
+            "files of interpreters without reference flags (Python < 3.4) are never rewritten; for every object tree, each reference the writer emits is preceded by the start of the very object it refers to, that object carries the reference flag, and the index written is the one at which the reader's table lookup finds it (no dangling, forward or from-within reference); the writer's de-duplication key is structural equality. The round trip 'the rewritten payload decodes, under CPython's rules for that version, to the same tree' "
             "is not yet closed in Coq; it is decided by the byte-exact differential run (extracted model vs. the real handler, stdlib corpus and generated streams for 3.4..3.14) plus an independent "
             "CPython-rules decoder comparing input and output trees (itself cross-checked against the sandbox's CPython 3.11).",
             "Modelled, not verified: CPython's marshal rules per version (lib/pymarshal.py); bytecode semantics never interpreted; the model writes on dereferenced values and orders flags by "
